@@ -248,7 +248,6 @@ Definition rows_in_class (rows : list renvrow) (T : rtruth) (tm : cfmsg) (startH
     if (0 <=? i) && (i <? zlen (m_hashes tm)) then
       let blk := mk_blk rb in
       let tf := plook (rt_filt T) t in
-      hok && bok &&
       match ofind orc tf with Some _ => true | None => false end &&
       negb (omits_requiredb blk (matched_of orc tf)) &&
       (opret_matches blk (matched_of orc tf) =? 0) &&
@@ -258,6 +257,16 @@ Definition rows_in_class (rows : list renvrow) (T : rtruth) (tm : cfmsg) (startH
         (match ofind orc (snd qg) with Some _ => true | None => false end &&
          omits_requiredb blk (matched_of orc (snd qg)))) filts
     else true) rows.
+
+(* header and block of every height asked can be fetched.  Needed for
+   PROGRESS only: a round whose block fetch fails is no verdict (nobody is
+   banned on the strength of a majority, nothing is committed, an error is
+   reported), so the safety checks apply to it all the same *)
+Definition rows_avail (rows : list renvrow) (tm : cfmsg) (startH : Z) : bool :=
+  List.forallb (fun r : renvrow =>
+    let '(t, _, hok, bok, _, _) := r in
+    let i := t - startH in
+    if (0 <=? i) && (i <? zlen (m_hashes tm)) then hok && bok else true) rows.
 
 Definition honest_rows (rows : list renvrow) (T : rtruth) (tm : cfmsg) (startH : Z) (p : Z) : bool :=
   List.forallb (fun r : renvrow =>
@@ -327,7 +336,8 @@ Definition u_verdict (id : Z) (reqs : list (Z * Z)) (ht : htab) (bl fl : runs) (
         let ok_liars := oerr || List.forallb (fun p => mem p obans) liars in
         (* with an honest peer connected the call commits: in particular the
            request is one a conforming peer can answer *)
-        let ok_progress := negb oerr && negb (req_too_long (abl a) reqs) in
+        let ok_progress := negb (rows_avail envr tm startH) ||
+                           (negb oerr && negb (req_too_long (abl a) reqs)) in
         if ok_honest && ok_value && ok_liars && ok_progress then [] else [(id, 2, 0, 0)]
       else []
     | None => []
@@ -383,7 +393,15 @@ Definition r_verdict (id : Z) (reqs : list (Z * Z)) (ht : htab) (bl fl : runs) (
     let ok_value := match ores' with Some l => is_prefix l tc | None => true end in
     let liars := List.map fst (List.filter (fun q : Z * list Z => negb (is_prefix (snd q) tc)) cpl) in
     let ok_liars := match ores' with Some _ => List.forallb (fun p => mem p obans) liars | None => true end in
-    let ok_progress := match ores' with
+    let avail := match d_of with
+                 | None => true
+                 | Some d => match true_msg v T (u32 (d * INTERVAL)) with
+                             | Some tm => rows_avail envr tm (u32 (d * INTERVAL))
+                             | None => true
+                             end
+                 end in
+    let ok_progress := negb avail ||
+                       match ores' with
                        | Some _ => true
                        | None => List.existsb (fun q => mem q (List.map fst cpl)) obans
                        end in
